@@ -20,8 +20,8 @@ TRUSTED = ["lean/Mpir/Model/CxxIo.lean `IStream.get/putback/clear`, `OStream.wri
            "end of input sets eofbit|failbit and leaves the character; ostream::sentry writes nothing unless good()); validated on every run by the cxx_io_* ops (entry states with eofbit/failbit/badbit included)",
            "tools/cxxio_driver.cc: C++ interpreter of the cxx_io_* op lines (hand-written hex parser/printer over the C structs)",
            "locale \"C\": decimal point '.', std::isspace = space, \\t \\n \\v \\f \\r"]
-ASSUMPTIONS = ["operator<< for mpf_class is modelled for decimal streams only (Printf.doprntMpf has no \"@%c%02d\" exponent format and no octal digits): hex/oct mpf output stays with the "
-               "generated-program comparison against gmp_asprintf of c20_cxx.py; mantissas of at most two limbs in the cxx_io_out_f ops (as for C18's %F)",
+ASSUMPTIONS = ["the cxx_io_out_f ops model operator<< for mpf_class through Printf.doprntMpf (decimal streams, mantissas of at most two limbs, as for C18's %F); every base and every "
+               "mantissa length is covered by cxx_io_out_fg of part c20_cxxio2 (Model/CxxIo2.lean `insertFG` on the bit-exact MpfStr.get_str)",
                "the value stored by operator>> is mpz_set_str / mpf_set_str of the collected string (Scanf.setStr, MpfStr.set_str: properties C18/C13)"]
 RULE = ("cxx_io_* op lines: operator>> on [white space][sign][0/0x prefix][digits][delimiter][tail] for every body class (empty, 0, 0x alone, 08, hex letters, long), every delimiter kind "
         "(end, space, newline, comma, letters, '/', '/den' with sign / prefix / zero / missing), every basefield setting (dec, oct, hex, none, two and three bits), skipws on/off, entry states "
@@ -129,8 +129,9 @@ def gen_out(rng, tier):
             n = ZVALS[(k * 3) % len(ZVALS)]; d = [1, 2, 3, 8, 16, 255, 10 ** 20, 1 << 64, 7, 64][k % 10]
             yield "cxx_io_out_q %x 0 %s %x 6 %s %s" % (fl, hx(w), f, hx(n), hx(d))
             if k % 4 == 0: yield "cxx_io_out_q %x 0 %s %x 6 %s %s" % (fl, hx(w), f, hx(rng.getrandbits(70) - (1 << 69)), hx(rng.getrandbits(rng.choice([1, 4, 66])) + 1))
-    # non-canonical and odd rationals, odd fills, entry states
-    for n, d in [(0, 1), (0, 5), (4, 2), (-4, 2), (3, -2), (-3, -2), (1, 0), (0, 0), (5, 1), (8, 8), (1, 8), (-1, 16)]:
+    # non-canonical and odd rationals, odd fills, entry states.  No negative denominators: they are outside the mpq contract and mpq_get_str
+    # (mpq/get_str.c:41, `q->_mp_den._mp_size` without ABS) under-allocates its buffer for them — the recording allocator of the driver shows it
+    for n, d in [(0, 1), (0, 5), (4, 2), (-4, 2), (1, 0), (0, 0), (5, 1), (8, 8), (1, 8), (-1, 16)]:
         for fl in (F_DEC, F_OCT | F_SHOWBASE, F_HEX | F_SHOWBASE | F_INTERNAL, F_HEX | F_SHOWBASE | F_UPPER | F_SHOWPOS | F_LEFT, F_OCT | F_SHOWBASE | F_INTERNAL | F_SHOWPOS):
             for w in (0, 9): yield "cxx_io_out_q %x 0 %x 2a 6 %s %s" % (fl, w, hx(n), hx(d))
     for st in range(1, 8):
